@@ -266,6 +266,14 @@ def run(ctx):
             try:
                 for key, what in check_criteria(x, p, name, tag):
                     ctx.violation(key, what, {'function': 'arburg', 'x': vlib.hexv(x), 'order': p, 'criteria': name})
+                # the requested orders around the one the criterion selects (q*, q*+1: the LAST requested stage is the rejected one, q*+2)
+                from spectrum import arburg
+                qs = len(arburg(x, max(1, min(len(x) - 2, 24)), criteria=name)[2])
+                for p2 in (qs, qs + 1, qs + 2):
+                    if 1 <= p2 <= len(x) - 2 and p2 != p:
+                        ctx.count('search/criteria-boundary/%s' % ('q*' if p2 == qs else 'q*+%d' % (p2 - qs)))
+                        for key, what in check_criteria(x, p2, name, tag):
+                            ctx.violation(key, what, {'function': 'arburg', 'x': vlib.hexv(x), 'order': p2, 'criteria': name})
             except ValueError:
                 ctx.count('search/criteria-degenerate-raised')
             ctx.case(('search-crit', x.tobytes(), p, name), nontrivial=(p >= 2)); ctx.count('search/criteria/' + name)
